@@ -344,10 +344,23 @@ func lookup(instr *ssa.Lookup, x, idx value) value {
 // numeric datatypes and strings.  Both operands must have identical
 // dynamic type.
 func (i *interpreter) binop(op token.Token, t types.Type, x, y value) value {
-	switch x.(type) {
+	switch xv := x.(type) {
 	case SymInt, SymBool:
 		return i.symBinop(op, t, x, y)
 	case TimeByte:
+		// the two operations PrefixEndBytes performs on the last byte of a key
+		if yv, ok := y.(uint8); ok && xv.I == timeBytesLen-1 {
+			if op == token.ADD && yv == 1 && !xv.Inc {
+				return TimeByte{xv.T, xv.I, true}
+			}
+			// a digit (or a digit + 1) is never the zero byte
+			if op == token.NEQ && yv == 0 {
+				return true
+			}
+			if op == token.EQL && yv == 0 {
+				return false
+			}
+		}
 		unsupported("operation %s on a symbolic time-format byte", op)
 	}
 	switch y.(type) {
